@@ -168,6 +168,28 @@ def run(rep, tier, seed, tr_errors):
                         el.set_label(rng.choice([k, " " + k, k + " ", "\t" + k + "\n", "0" + k, k + "a"]))
                     except ValueError:
                         pass
+        if rng.random() < 0.4:
+            # identifiers are asked for once, then the circuit is edited IN PLACE (an element appended to, or removed from, one of its
+            # connections); what is observed below must describe the circuit as it is now
+            from pyimpspec import Resistor, Capacitor
+            from pyimpspec.circuit.base import Connection
+            try:
+                c.generate_element_identifiers(running=True)
+                c.generate_element_identifiers(running=False)
+                c.to_string(3)
+            except Exception:  # noqa
+                pass
+            conns, todo = [], [c._elements]
+            while todo:
+                x = todo.pop()
+                conns.append(x)
+                todo += [y for y in x._elements if isinstance(y, Connection)]
+            con = rng.choice(conns)
+            direct_children = [y for y in con._elements if not isinstance(y, Connection)]
+            if len(con._elements) > 2 and direct_children and rng.random() < 0.5:
+                con.remove(rng.choice(direct_children))
+            else:
+                con.append(rng.choice([Resistor, Capacitor])())
         uids = {}
         t = build_lit(c._elements, uids, ctx)
         try:
